@@ -34,7 +34,7 @@ RULE = ('cases: seeded model configurations (plain / grid / continuous world, wr
         'of different seeds of one configuration differ. Non-trivial: trajectory with >=20 random picks/shuffles whose digest was '
         'compared under >=8 perturbations; distinct by (configuration, seed).')
 ASSUMPTIONS = ['"for all seeds / hash seeds / process counts" is sampled', 'the fixture draws all of its own randomness from model.random']
-FLOORS = {'quick': {'digests_compared': 280, 'trajectories': 24, 'watched_calls': 20000, 'global_reseeds': 5000, 'interleaved_other_models': 500,
+FLOORS = {'quick': {'batch_runs_open_signature_model': 8, 'digests_compared': 280, 'trajectories': 24, 'watched_calls': 20000, 'global_reseeds': 5000, 'interleaved_other_models': 500,
                     'fresh_interpreter_digests': 96, 'batch_worker_digests': 72, 'distinct_seed_pairs_differ': 30, 'big_configurations': 2, 'seed_zero_trajectories': 6,
                     'hash_seeds_used': 4, 'reach:Core.Environment.get_random_agent': 14000, 'reach:Core.Environment.shuffle': 8600},
           'thorough': {'digests_compared': 6000, 'trajectories': 500, 'watched_calls': 400000}}
@@ -151,7 +151,10 @@ def case_cfg(ctx, case):
             ctx.count('fresh_interpreter_digests')
     # batch workers
     for procs in (1, 2, 8):
-        res = batching.batch_run(tm.TraceModel, {'cfg': json.dumps(cfg), 'seed': list(seeds)}, collectors='digest', processes=procs)
+        # the same model class written with an explicit signature or with an open one (seed travels through **kwargs)
+        cls = tm.KwTraceModel if (procs + case['i']) % 2 else tm.TraceModel
+        ctx.count('batch_runs_open_signature_model' if cls is tm.KwTraceModel else 'batch_runs_explicit_signature_model')
+        res = batching.batch_run(cls, {'cfg': json.dumps(cfg), 'seed': list(seeds)}, collectors='digest', processes=procs)
         got = {}
         for recs in res:
             for r in recs:
